@@ -79,6 +79,19 @@ claim("C03",
       "finding F20) are outside the generated family; symbolic operations stand for arbitrary user operations.",
       "TLA+ denotational-vs-operational model checked by TLC + TLC-emitted graphs replayed + TLC trace validation", "5/C03")
 
+claim("C14",
+      "TLC checks ElfiGraph.tla exhaustively: all edit histories (add node with node / literal parents, become, remove, parameter_names "
+      "setter, observed data, copy, save+load) of bounded length over a store with explicit addresses for node state dicts and observed "
+      "dicts (aliasing between a model and its copy is representable); invariants AllConsistent, CopyIndependent, CopySame, BecomeContract, "
+      "RemoveContract; negative controls: copy() sharing state (F13, repaired) and become() with a non-fresh replacement (F14, known).  "
+      "Seeded random edit histories are replayed on real ElfiModels with symbolic operations; after every action every live model is "
+      "projected through the public API (nodes, classes, operation ids, edges with params, observed, parameter flags and parameter_names, "
+      "seeded generate() digest) and TLC validates the trace against ElfiGraph_Trace.tla (P: clauses a-f on the observed projections, M: "
+      "equality with the design store after each action).",
+      "Small-scope at design level (3 user names, <= 5 edits, 2 handles); named edges are not part of the edit histories; node names from a "
+      "fixed alphabet (sortedness is checked through a rank table).",
+      "TLA+ model of the edit operations checked by TLC + replay of edit histories + TLC trace validation", "5/C14")
+
 ALL = ["C%02d" % i for i in range(1, 21)]
 
 
